@@ -254,17 +254,20 @@ impl ImageMetadata {
         top: i32,
         inverse: bool,
     ) -> (u32, u32, i32, i32) {
+        // Dimensions may exceed `i32::MAX` (width derived from an aspect ratio); wrap instead of
+        // overflowing.
+        let flip = |size: u32, pos: i32| (size as i32).wrapping_sub(pos).wrapping_sub(1);
         let (left, top) = match self.orientation {
             1 => (left, top),
-            2 => (width as i32 - left - 1, top),
-            3 => (width as i32 - left - 1, height as i32 - top - 1),
-            4 => (left, height as i32 - top - 1),
+            2 => (flip(width, left), top),
+            3 => (flip(width, left), flip(height, top)),
+            4 => (left, flip(height, top)),
             5 => (top, left),
-            6 if inverse => (top, width as i32 - left - 1),
-            6 => (height as i32 - top - 1, left),
-            7 => (height as i32 - top - 1, width as i32 - left - 1),
-            8 if inverse => (height as i32 - top - 1, left),
-            8 => (top, width as i32 - left - 1),
+            6 if inverse => (top, flip(width, left)),
+            6 => (flip(height, top), left),
+            7 => (flip(height, top), flip(width, left)),
+            8 if inverse => (flip(height, top), left),
+            8 => (top, flip(width, left)),
             _ => unreachable!(),
         };
         let (width, height) = match self.orientation {
